@@ -299,9 +299,15 @@ func (i *IGMP) DecodeFromBytes(data []byte, df gopacket.DecodeFeedback) error {
 
 	switch i.Type {
 	case IGMPMembershipQuery:
-		i.decodeIGMPv3MembershipQuery(data)
+		if err := i.decodeIGMPv3MembershipQuery(data); err != nil {
+			df.SetTruncated()
+			return err
+		}
 	case IGMPMembershipReportV3:
-		i.decodeIGMPv3MembershipReport(data)
+		if err := i.decodeIGMPv3MembershipReport(data); err != nil {
+			df.SetTruncated()
+			return err
+		}
 	default:
 		return errors.New("unsupported IGMP type")
 	}
